@@ -233,6 +233,17 @@ def builder_for(mode):
                 for k, v in pairs:
                     ff = ff(**{k: build(v, leaves)})
             return funsor.reinterpret(ff)
+        if mode == "chained_reflect":    # the first substitution is only RECORDED (reflect): the Subs term survives, and the next
+            # substitution, applied eagerly, goes through the Subs-of-Subs fusion rule (eager_subs_subs)
+            from funsor.interpretations import reflect
+            ff = build(f, leaves)
+            (k0, v0), rest = pairs[0], pairs[1:]
+            v0b = build(v0, leaves)
+            with reflect:
+                ff = ff(**{k0: v0b})
+            for k, v in rest:
+                ff = ff(**{k: build(v, leaves)})
+            return funsor.reinterpret(ff)
         if mode == "chained":
             ff = build(f, leaves)
             for k, v in pairs:
@@ -247,7 +258,7 @@ def prog_worker(inst):
     from lang.prog import type_of, subs as P_subs
     _, mode, prog = inst
     tmo = 4000 if os.environ.get("VERIF_TIER", "quick") == "quick" else 10000
-    if mode in ("chained", "chained_normalize", "chained_lazy"):
+    if mode in ("chained", "chained_normalize", "chained_lazy", "chained_reflect"):
         # f(a)(b): the oracle is the NESTED substitution
         _, f, pairs = prog
         nested = f
@@ -393,6 +404,8 @@ def instances(tier, seed):
                 out.append(("prog", "chained_normalize", p))
             if len(m) >= 2 and rng.random() < 0.5:
                 out.append(("prog", "chained_lazy", p))
+            if len(m) >= 2:
+                out.append(("prog", "chained_reflect", p))
     return out
 
 
